@@ -39,6 +39,9 @@ enum Presence {
 
 #[derive(Clone, Debug)]
 struct FState {
+    /// identity of the field across versions: a name may come back after its field was removed (a new field, a new
+    /// incarnation of the name); steps that cite a name mean its latest incarnation
+    uid: usize,
     name: String,
     base: Ty,
     optional: bool,
@@ -62,7 +65,9 @@ impl History {
         let mut fields: Vec<FState> = self
             .initial
             .iter()
-            .map(|f| FState {
+            .enumerate()
+            .map(|(i, f)| FState {
+                uid: i,
                 name: f.name.clone(),
                 base: f.base.clone(),
                 optional: f.optional,
@@ -71,7 +76,10 @@ impl History {
                 optional_when_added: f.optional,
             })
             .collect();
-        for s in &self.steps[..k] {
+        fn latest<'a>(fields: &'a mut [FState], n: &str) -> &'a mut FState {
+            fields.iter_mut().filter(|f| f.name == n).max_by_key(|f| f.uid).expect("known field")
+        }
+        for (step_no, s) in self.steps[..k].iter().enumerate() {
             match s {
                 HStep::Added { field, default, insert_at } => {
                     // insert_at counts declared (not removed) fields
@@ -90,6 +98,7 @@ impl History {
                     fields.insert(
                         at,
                         FState {
+                            uid: 1000 + step_no,
                             name: field.name.clone(),
                             base: field.base.clone(),
                             optional: field.optional,
@@ -100,16 +109,13 @@ impl History {
                     );
                 }
                 HStep::MadeOptional(n) => {
-                    let f = fields.iter_mut().find(|f| &f.name == n).expect("known field");
-                    f.optional = true;
+                    latest(&mut fields, n).optional = true;
                 }
                 HStep::Removed(n) => {
-                    let f = fields.iter_mut().find(|f| &f.name == n).expect("known field");
-                    f.presence = Presence::Removed;
+                    latest(&mut fields, n).presence = Presence::Removed;
                 }
                 HStep::MadeTransient { name, default } => {
-                    let f = fields.iter_mut().find(|f| &f.name == name).expect("known field");
-                    f.presence = Presence::Transient(default.clone());
+                    latest(&mut fields, name).presence = Presence::Transient(default.clone());
                 }
             }
         }
@@ -179,7 +185,7 @@ impl History {
         let rs = self.states(r);
         ws.iter().any(|f| {
             f.presence == Presence::Present
-                && rs.iter().any(|g| g.name == f.name && g.presence != Presence::Present)
+                && rs.iter().any(|g| g.uid == f.uid && g.presence != Presence::Present)
         })
     }
 
@@ -199,8 +205,8 @@ impl History {
                 out.push(d.clone());
                 continue;
             }
-            let in_w = w_decl.iter().position(|g| g.name == f.name);
-            let w_state = ws.iter().find(|g| g.name == f.name);
+            let in_w = w_decl.iter().position(|g| g.uid == f.uid);
+            let w_state = ws.iter().find(|g| g.uid == f.uid);
             match w_state {
                 None => {
                     // added after w
@@ -245,13 +251,18 @@ impl History {
         };
         let mut out = Vec::new();
         for f in rs.iter().filter(|f| f.presence == Presence::Present) {
-            match ws.iter().find(|g| g.name == f.name) {
-                None => out.push("default_taken"),
+            match ws.iter().find(|g| g.uid == f.uid) {
+                None => {
+                    out.push("default_taken");
+                    if ws.iter().any(|g| g.name == f.name) {
+                        out.push("name_of_an_earlier_field_reused");
+                    }
+                }
                 Some(g) if g.presence != Presence::Present => {
                     out.push(if f.optional { "removed_reads_none" } else { "removed_is_error" })
                 }
                 Some(g) => {
-                    let x = &vals[w_decl.iter().position(|h| h.name == f.name).unwrap()];
+                    let x = &vals[w_decl.iter().position(|h| h.uid == f.uid).unwrap()];
                     match (g.optional, f.optional) {
                         (false, true) => out.push("wrapped"),
                         (true, false) => out.push(if *x == Val::None { "none_is_error" } else { "unwrapped" }),
@@ -266,7 +277,7 @@ impl History {
         // a transient field of the reader that the writer still serialized
         for f in rs.iter() {
             if matches!(f.presence, Presence::Transient(_)) || f.presence == Presence::Removed {
-                if let Some(g) = ws.iter().find(|g| g.name == f.name) {
+                if let Some(g) = ws.iter().find(|g| g.uid == f.uid) {
                     if g.presence == Presence::Present {
                         out.push("dropped_field_ignored");
                     }
@@ -279,7 +290,8 @@ impl History {
     }
 }
 
-pub const OUTCOME_CLASSES: [&str; 9] = [
+pub const OUTCOME_CLASSES: [&str; 10] = [
+    "name_of_an_earlier_field_reused",
     "as_written",
     "wrapped",
     "unwrapped",
@@ -347,11 +359,20 @@ pub fn gen_history(
                     target = field.name.clone();
                     h.steps.push(HStep::Added { field, default, insert_at: rng.below(declared as u64 + 1) as usize });
                 }
+                'n' => {
+                    // the name of the (removed) target comes back: a new field, possibly of another type
+                    let mut field = fresh(rng);
+                    field.optional = false;
+                    field.name = target.clone();
+                    let declared = h.states(h.steps.len()).iter().filter(|f| f.presence != Presence::Removed).count();
+                    let default = mk_default(&field.base.clone(), rng);
+                    h.steps.push(HStep::Added { field, default, insert_at: rng.below(declared as u64 + 1) as usize });
+                }
                 'o' => h.steps.push(HStep::MadeOptional(target.clone())),
                 'r' => h.steps.push(HStep::Removed(target.clone())),
                 't' => {
                     let st = h.states(h.steps.len());
-                    let f = st.iter().find(|f| f.name == target).unwrap();
+                    let f = st.iter().filter(|f| f.name == target).max_by_key(|f| f.uid).unwrap();
                     let default = mk_default(&History::field_ty(f), rng);
                     h.steps.push(HStep::MadeTransient { name: target.clone(), default });
                 }
@@ -370,7 +391,15 @@ pub fn gen_history(
         let present: Vec<&FState> = states.iter().filter(|f| f.presence == Presence::Present).collect();
         match rng.below(10) {
             0..=3 => {
-                let field = fresh(rng);
+                let mut field = fresh(rng);
+                // one added field in four takes the name of a field that was removed earlier, if there is one
+                let free: Vec<&FState> = states
+                    .iter()
+                    .filter(|f| f.presence == Presence::Removed && !states.iter().any(|g| g.name == f.name && g.presence != Presence::Removed))
+                    .collect();
+                if !free.is_empty() && rng.chance(1, 4) {
+                    field.name = rng.pick(&free).name.clone();
+                }
                 let declared = states.iter().filter(|f| f.presence != Presence::Removed).count();
                 let ty = if field.optional { Ty::Opt(field.base.clone().boxed()) } else { field.base.clone() };
                 let default = mk_default(&ty, rng);
